@@ -20,7 +20,7 @@
    (c_dutils.c, c_qualitycontrol.c, c_baseflow.c, c_var2h.c, c_dateutils.c).
    No proofs in this file. *)
 From Coq Require Import ZArith Bool List String.
-From Hy Require Import Base.Num.
+From Hy Require Import Base.Num Gen.ConstsC05.
 Import ListNotations.
 Open Scope Z_scope.
 
@@ -52,6 +52,12 @@ Definition safeb {S} (r : step S) : bool := match r with Fail _ => false | _ => 
 Definition bindr {A S} (m : res A) (k : A -> step S) : step S :=
   match m with Ok a => k a | Err e => Fail e end.
 Notation "'let!' x ':=' m 'in' k" := (bindr m (fun x => k))
+  (at level 200, x pattern, m at level 100, k at level 200).
+
+(* let? x := (e : res A) in (k : res B) *)
+Definition bindR {A B} (m : res A) (k : A -> res B) : res B :=
+  match m with Ok a => k a | Err e => Err e end.
+Notation "'let?' x ':=' m 'in' k" := (bindR m (fun x => k))
   (at level 200, x pattern, m at level 100, k at level 200).
 
 (* s1 ;; s2 : sequencing of statements on the same state *)
@@ -326,7 +332,7 @@ Definition var2h (fx : bool) (nvalvar nvalh nbsec rainfall : Z) (varsec : list Z
     (hstartsec : Z) (hvalues : list bool) : step vhst :=
   let s0 := mkVh 0 (n0 N) hvalues in
   if (rainfall <? 0) || (1 <? rainfall) then Ret 1 s0
-  else if negb (nbsec =? 1800) && negb (nbsec =? 3600) then Ret 1 s0
+  else if negb (nbsec =? VAR2H_PERIOD_A) && negb (nbsec =? VAR2H_PERIOD_B) then Ret 1 s0
   else
   match vh_position fx nvalvar varsec hstartsec with
   | Fail e => Fail e
